@@ -1,6 +1,6 @@
 #!/usr/bin/env python3
 """Re-evaluate every seeded change against the current HEADs of /repo and /verif (committed state), in parallel isolated slots.
-usage: tools/reeval_seeded.py <nslots> [first_slot] [--only Cxx,...]
+usage: tools/reeval_seeded.py <nslots> [first_slot] [--only Cxx,...] [--ids Cxx-n,...] [--suite]
 Each change is run against its own property's check plus every check that caught it before (tools/seeded_eval_iso.py,
 --no-suite: the suite comparison was done when the change was first confirmed). Logs: /tmp/se/reeval-<id>.log."""
 import json
@@ -17,15 +17,21 @@ def main():
     n = int(sys.argv[1])
     first = int(sys.argv[2]) if len(sys.argv) > 2 and sys.argv[2].isdigit() else 11
     only = None
+    ids = None
+    suite = [] if "--suite" in sys.argv else ["--no-suite"]
     for a in sys.argv:
         if a.startswith("--only"):
             only = set(sys.argv[sys.argv.index(a) + 1].split(","))
+        if a.startswith("--ids"):
+            ids = set(sys.argv[sys.argv.index(a) + 1].split(","))
     todo = []
     for d in sorted((V / "seeded").iterdir()):
         if not (d / "patch.diff").exists():
             continue
         prop = d.name.split("-")[0]
         if only and prop not in only:
+            continue
+        if ids and d.name not in ids:
             continue
         meta = json.loads((d / "meta.json").read_text()) if (d / "meta.json").exists() else {}
         if meta.get("superseded"):
@@ -44,7 +50,7 @@ def main():
             log = open(f"/tmp/se/reeval-{name}.log", "w")
             env = dict(os.environ, VERIF_NPROC=os.environ.get("VERIF_NPROC", "5"), VERIF_ESCALATE_S="60")
             # the property's own check first; the checks that caught the change before are only consulted if that one misses
-            subprocess.run(["python3", str(V / "tools" / "seeded_eval_iso.py"), str(slot), f"seeded/{name}", checks[0], "--no-suite"],
+            subprocess.run(["python3", str(V / "tools" / "seeded_eval_iso.py"), str(slot), f"seeded/{name}", checks[0]] + suite,
                            cwd=V, stdout=log, stderr=subprocess.STDOUT, env=env)
             try:
                 caught = json.loads((V / "seeded" / name / "meta.json").read_text()).get("caught_by")
